@@ -45,6 +45,8 @@ package env
 // ASSUMPTION (environment class): no typed-nil *Env is ever bound as a value (scripts cannot construct one).
 //@ axiom auto_envNonNil: forall i any :: typeis(i, "*Env") ==> as(i, "*Env") != nil
 
+// the error value of a dotted name is a real (non-nil) error, established by the package initialiser
+//@ global_inv enverrs: ErrSymbolContainsDot != nil
 // lock discipline (C13): nolocks() = this activation holds no scope lock.
 //@ spec fun nolocks() bool = forall x *Env :: lockstate(x) == 0
 // depth(e): distance to the root. ASSUMPTION (acyclic parent chain; parent is only ever set on a fresh scope):
@@ -89,6 +91,7 @@ package env
 //@ modifies e.values, mapof(e.values)
 //@ ensures dot: strContains(symbol, ".") ==> result == ErrSymbolContainsDot && e.values == old(e.values) && mapdom(e.values) == old(mapdom(e.values)) && mapvals(e.values) == old(mapvals(e.values))
 //@ ensures [C12 C04 C11] def: !strContains(symbol, ".") ==> result == nil && has(e.values, symbol) && e.values[symbol] == value
+//@ ensures [C12] lazymap: (old(e.values) != nil ==> e.values == old(e.values)) && (old(e.values) == nil && e.values != nil ==> fresh(e.values))
 //@ ensures others: forall k string :: k != symbol ==> (has(e.values, k) <==> old(has(e.values, k))) && (has(e.values, k) ==> e.values[k] == old(e.values[k]))
 //@ critical 0 atomic: has(e.values, symbol) && e.values[symbol] == value && (forall k string :: k != symbol ==> (has(e.values, k) <==> acq(has(e.values, k))) && (has(e.values, k) ==> e.values[k] == acq(e.values[k])))
 
@@ -206,6 +209,7 @@ package env
 //@ modifies e.types, mapof(e.types)
 //@ ensures dot: strContains(symbol, ".") ==> result == ErrSymbolContainsDot && e.types == old(e.types) && mapdom(e.types) == old(mapdom(e.types)) && mapvals(e.types) == old(mapvals(e.types))
 //@ ensures def: !strContains(symbol, ".") ==> result == nil && has(e.types, symbol) && e.types[symbol] == reflectType
+//@ ensures [C12] lazymap: (old(e.types) != nil ==> e.types == old(e.types)) && (old(e.types) == nil && e.types != nil ==> fresh(e.types))
 //@ ensures others: forall k string :: k != symbol ==> (has(e.types, k) <==> old(has(e.types, k))) && (has(e.types, k) ==> e.types[k] == old(e.types[k]))
 //@ critical 0 atomic: has(e.types, symbol) && e.types[symbol] == reflectType && (forall k string :: k != symbol ==> (has(e.types, k) <==> acq(has(e.types, k))) && (has(e.types, k) ==> e.types[k] == acq(e.types[k])))
 
